@@ -9,3 +9,6 @@ python3 tools/extract.py
 mkdir -p .build
 cp /repo/Cargo.lock harness/Cargo.lock
 (cd harness && CARGO_TARGET_DIR=../.build/harness-target cargo build --offline --release && CARGO_TARGET_DIR=../.build/harness-target cargo build --offline)
+# AddressSanitizer build of the harness for C06 (same flags as tools/c06_runner.sh); not fatal here —
+# the runner rebuilds and reports if it is missing
+(cd harness && RUSTFLAGS="-Zsanitizer=address" CARGO_TARGET_DIR=../.build/asan-target CARGO_PROFILE_RELEASE_DEBUG=line-tables-only cargo +nightly build --offline --release --target x86_64-unknown-linux-gnu >/dev/null 2>&1) || true
